@@ -3,6 +3,8 @@
     Each theorem is closed by [exact] and followed by [Print Assumptions]. *)
 From Coq Require Import List ZArith Bool.
 From Celer Require Import C17.Gather C17.GatherProofs C17.GatherWitness.
+From Celer Require Import C17.Loop C17.LoopProofs C17.LoopProofs2 C17.LoopWitness.
+From Celer Require Import C17.Multi C17.MultiProofs C17.MultiWitness C17.FloatWitness.
 Import ListNotations.
 Local Open Scope Z_scope.
 
@@ -118,6 +120,60 @@ Theorem C17_step_diagnostic_counts : forall (F : Type) (nb : Z) (steps : list (s
 Proof. exact step_diagnostic_counts. Qed.
 Print Assumptions C17_step_diagnostic_counts.
 
+(** Composition with the stepping loop's step counter (model C17/Loop.v:
+    SimTrackView initialisation resets num_steps, TrackUpdater increments it once
+    per along-step; slots are re-used by queued tracks and by secondaries).  For
+    ANY run (any number of slots, any history of initialisations / kills / slot
+    re-use, any payload) that starts with vacant slots and uses each
+    (event, track, particle) id once, with an unfiltered collector that selects
+    event and particle ids: the step counter a killed track carries at its death
+    is the number of post-step records delivered for it ... *)
+Theorem C17_num_steps_equals_delivered : forall (F : Type) (fzero : F) (is_zero : F -> bool)
+    (p : params) (nslots : nat) (h : list (list (linput F))) (rows0 : list (row F)) (b : slot_post F),
+  has_det p = false -> s_event (p_sel p) = true -> s_particle (p_sel p) = true ->
+  length rows0 = nslots ->
+  Forall (fun inp => length inp = nslots) h ->
+  NoDup (all_inits h) ->
+  let steps := fst (loop_run (repeat None nslots) h) in
+  In b (flat_map snd steps) -> b_status b = Killed ->
+  b_nsteps b
+  = Z.of_nat (cnt (post_key b) (map row_key (stream p (run_views is_zero p steps rows0)))).
+Proof. exact num_steps_equals_delivered. Qed.
+Print Assumptions C17_num_steps_equals_delivered.
+
+(** ... hence, for a complete run (every slot vacant at the end), StepDiagnostic's
+    (particle, bin) histogram is the histogram of the number of delivered records
+    per track (last bin = overflow). *)
+Theorem C17_step_diagnostic_equals_delivered : forall (F : Type) (fzero : F) (is_zero : F -> bool)
+    (p : params) (nslots : nat) (h : list (list (linput F))) (rows0 : list (row F)) (nb i j : Z),
+  has_det p = false -> s_event (p_sel p) = true -> s_particle (p_sel p) = true ->
+  length rows0 = nslots ->
+  Forall (fun inp => length inp = nslots) h ->
+  NoDup (all_inits h) ->
+  let steps := fst (loop_run (repeat None nslots) h) in
+  Forall (fun st => st = None) (snd (loop_run (repeat None nslots) h)) ->
+  stepdiag_run nb steps counts0 i j
+  = hist_delivered nb (stream p (run_views is_zero p steps rows0)) i j.
+Proof. exact step_diagnostic_equals_delivered. Qed.
+Print Assumptions C17_step_diagnostic_equals_delivered.
+
+(** The delivered [track_step_count] itself: in every such run (collector also
+    selecting track_step_count) each delivered record carries the number of records
+    delivered for its track up to and including it. *)
+Theorem C17_track_step_count_is_running_count : forall (F : Type) (fzero : F) (is_zero : F -> bool)
+    (p : params) (nslots : nat) (h : list (list (linput F))) (rows0 : list (row F))
+    (S1 : list (row F)) (r : row F) (S2 : list (row F)),
+  has_det p = false -> s_event (p_sel p) = true -> s_particle (p_sel p) = true ->
+  s_nsteps (p_sel p) = true ->
+  length rows0 = nslots ->
+  Forall (fun inp => length inp = nslots) h ->
+  NoDup (all_inits h) ->
+  let steps := fst (loop_run (repeat None nslots) h) in
+  stream p (run_views is_zero p steps rows0) = S1 ++ r :: S2 ->
+  r_nsteps r = Z.of_nat (cnt (row_key r) (map row_key (S1 ++ [r]))).
+Proof. exact track_step_count_is_running_count. Qed.
+Print Assumptions C17_track_step_count_is_running_count.
+
 (** Adding a filter only removes records. *)
 Theorem C17_filters_monotone : forall (F : Type) (fzero : F) (is_zero : F -> bool)
     (p p' : params) (pres : list (slot_pre F)) (posts : list (slot_post F)) (i : nat) (r' : row F),
@@ -170,3 +226,161 @@ Theorem C17_detector_steps_compaction : forall (F : Type) (p : params) (rows : l
   o_energy (o_post o) = opt_map (s_energy (s_post s)) (fun r => t_energy (r_post r)) kept.
 Proof. exact detector_steps_compaction. Qed.
 Print Assumptions C17_detector_steps_compaction.
+
+(** ** Several step interfaces registered at once (StepParams.cc, StepGatherAction.cc) *)
+
+(** For ANY list of interfaces accepted by the StepParams constructor: callback
+    [k] is run exactly once on the one shared view; within its OWN selection it
+    reads exactly one record per active slot passing the combined filters, each
+    selected field equal to the track state at its step point; and every active
+    step passing the filters it declared itself is delivered exactly once. *)
+Theorem C17_all_callbacks_same_view_full : forall (F : Type) (fzero : F) (is_zero : F -> bool)
+    (A : Type) (nvol : nat) (fs : list iface) (p : params)
+    (cbs : list (list (row F) -> A -> A)) (accs : list A)
+    (pres : list (slot_pre F)) (posts : list (slot_post F)) (rows : list (row F))
+    (k : nat) (f : iface) (cb : list (row F) -> A -> A) (acc : A),
+  step_params_build nvol fs = inr p ->
+  nth_error fs k = Some f -> nth_error cbs k = Some cb -> nth_error accs k = Some acc ->
+  length pres = length rows -> length posts = length rows -> Forall2 consistent pres posts ->
+  let view := collector_step is_zero p pres posts rows in
+  nth_error (deliver cbs view accs) k = Some (cb view acc) /\
+  map (mask_snd fzero (with_sel p (f_sel f))) (delivered p view)
+  = map (fun iab => (fst iab, mask fzero (with_sel p (f_sel f)) (ideal p (snd iab))))
+        (filter (fun iab => step_active (snd iab) && keep is_zero p (snd iab))
+                (indexed (combine pres posts))) /\
+  (forall (pf : params) (i : nat) (ab : slot_pre F * slot_post F),
+     step_params_build nvol [f] = inr pf ->
+     (forall v d, In (v, d) (f_det f) -> 0 <= v < Z.of_nat nvol) ->
+     nth_error (combine pres posts) i = Some ab ->
+     step_active ab = true -> keep is_zero pf ab = true ->
+     count_occ Nat.eq_dec (map fst (delivered p view)) i = 1%nat).
+Proof. exact all_callbacks_same_view_full. Qed.
+Print Assumptions C17_all_callbacks_same_view_full.
+
+(** StepParams: the combined selection is the union of the interfaces' selections. *)
+Theorem C17_step_params_selection_union : forall (nvol : nat) (fs : list iface) (p : params),
+  step_params_build nvol fs = inr p ->
+  p_sel p = fold_left sel_union (map f_sel fs) sel_none /\
+  (forall f, In f fs -> sel_le (f_sel f) (p_sel p)) /\
+  (forall f, In f fs -> sel_any (f_sel f) = true).
+Proof. exact step_params_selection_union. Qed.
+Print Assumptions C17_step_params_selection_union.
+
+(** StepParams: interfaces with and without detectors cannot be mixed ... *)
+Theorem C17_step_params_mixed_rejected : forall (nvol : nat) (fs : list iface) (f g : iface),
+  In f fs -> In g fs -> f_det f = [] -> f_det g <> [] ->
+  exists e, step_params_build nvol fs = inl e.
+Proof. exact step_params_mixed_rejected. Qed.
+Print Assumptions C17_step_params_mixed_rejected.
+
+(** ... so has_detectors() is consistent with every interface. *)
+Theorem C17_step_params_has_detectors : forall (nvol : nat) (fs : list iface) (p : params),
+  step_params_build nvol fs = inr p -> (0 < nvol)%nat ->
+  (has_det p = true -> forall f, In f fs -> f_det f <> []) /\
+  (has_det p = false -> forall f, In f fs -> f_det f = []).
+Proof. exact step_params_has_detectors. Qed.
+Print Assumptions C17_step_params_has_detectors.
+
+(** StepParams: the detector array is the union of the interfaces' volume maps. *)
+Theorem C17_step_params_detector_union : forall (nvol : nat) (fs : list iface) (p : params) (vol d : Z),
+  step_params_build nvol fs = inr p -> 0 <= vol < Z.of_nat nvol ->
+  (det_lookup p vol = Some d <-> exists f, In f fs /\ In (vol, d) (f_det f)).
+Proof. exact step_params_detector_union. Qed.
+Print Assumptions C17_step_params_detector_union.
+
+(** StepParams: zero-deposit steps are dropped iff detectors are used and ALL interfaces ask for it. *)
+Theorem C17_step_params_nonzero : forall (nvol : nat) (fs : list iface) (p : params),
+  step_params_build nvol fs = inr p ->
+  (p_nonzero p = true <->
+   (exists f, In f fs /\ f_det f <> []) /\ forall f, In f fs -> f_nonzero f = true).
+Proof. exact step_params_nonzero. Qed.
+Print Assumptions C17_step_params_nonzero.
+
+(** ** Several streams: per-stream tallies merged at output *)
+
+(** SimpleCalo, any addition (binary64 included): merged tally = in-order sum over
+    the streams of the in-order per-stream sums of the delivered deposits. *)
+Theorem C17_calo_total_exact : forall (F : Type) (fzero : F) (fadd : F -> F -> F)
+    (n : nat) (calls : list (nat * list (row F))) (d : Z),
+  calo_total fzero fadd n calls d
+  = fold_left fadd
+      (map (fun s => fold_left fadd (edeps d (concat (stream_calls calls s))) fzero) (seq 0 n))
+      fzero.
+Proof. exact calo_total_exact. Qed.
+Print Assumptions C17_calo_total_exact.
+
+(** With an associative-commutative addition (the reals) the merged tally is the
+    sum over the union of all streams' delivered records, whatever the stream
+    assignment ... *)
+Theorem C17_calo_total_is_sum_of_all : forall (F : Type) (fzero : F) (fadd : F -> F -> F),
+  (forall x y z, fadd (fadd x y) z = fadd x (fadd y z)) ->
+  (forall x y, fadd x y = fadd y x) ->
+  (forall x, fadd fzero x = x) ->
+  forall (n : nat) (calls : list (nat * list (row F))) (d : Z),
+  Forall (fun c => (fst c < n)%nat) calls ->
+  calo_total fzero fadd n calls d
+  = fold_left fadd (edeps d (concat (map snd calls))) fzero.
+Proof. exact calo_total_is_sum_of_all. Qed.
+Print Assumptions C17_calo_total_is_sum_of_all.
+
+Theorem C17_calo_total_assignment_independent : forall (F : Type) (fzero : F) (fadd : F -> F -> F),
+  (forall x y z, fadd (fadd x y) z = fadd x (fadd y z)) ->
+  (forall x y, fadd x y = fadd y x) ->
+  (forall x, fadd fzero x = x) ->
+  forall (n n' : nat) (calls calls' : list (nat * list (row F))) (d : Z),
+  Forall (fun c => (fst c < n)%nat) calls -> Forall (fun c => (fst c < n')%nat) calls' ->
+  Permutation.Permutation (concat (map snd calls)) (concat (map snd calls')) ->
+  calo_total fzero fadd n calls d = calo_total fzero fadd n' calls' d.
+Proof. exact calo_total_assignment_independent. Qed.
+Print Assumptions C17_calo_total_assignment_independent.
+
+(** ... but NOT with binary64 addition: same records, two stream assignments,
+    different totals (1e16 + 1 + 1). *)
+Theorem C17_calo_total_float_assignment_refuted :
+  exists (calls calls' : list (nat * list (row PrimFloat.float))) (d : Z),
+    Forall (fun c => (fst c < 2)%nat) calls /\ Forall (fun c => (fst c < 2)%nat) calls' /\
+    concat (map snd calls) = concat (map snd calls') /\
+    PrimFloat.eqb (calo_total PrimFloat.zero PrimFloat.add 2 calls d)
+                  (calo_total PrimFloat.zero PrimFloat.add 2 calls' d) = false.
+Proof. exact calo_total_float_depends_on_assignment. Qed.
+Print Assumptions C17_calo_total_float_assignment_refuted.
+
+(** ActionDiagnostic / StepDiagnostic: merged counters = counts over the union of
+    all streams' steps, whatever the stream assignment (exact). *)
+Theorem C17_action_total_is_count_of_all : forall (F : Type) (n : nat)
+    (calls : list (nat * list (slot_post F))) (i j : Z),
+  Forall (fun c => (fst c < n)%nat) calls ->
+  counts_total (@action_accum F) n calls i j = countb (act_is i j) (concat (map snd calls)).
+Proof. exact action_total_is_count_of_all. Qed.
+Print Assumptions C17_action_total_is_count_of_all.
+
+Theorem C17_stepdiag_total_is_count_of_all : forall (F : Type) (nb : Z) (n : nat)
+    (calls : list (nat * list (slot_post F))) (i j : Z),
+  Forall (fun c => (fst c < n)%nat) calls ->
+  counts_total (stepdiag_accum nb) n calls i j = countb (sd_is nb i j) (concat (map snd calls)).
+Proof. exact stepdiag_total_is_count_of_all. Qed.
+Print Assumptions C17_stepdiag_total_is_count_of_all.
+
+(** ** DetectorSteps: array sizes, and the copy is exactly the delivered records *)
+Theorem C17_detector_steps_sizes : forall (F : Type) (p : params) (rows : list (row F)),
+  let n := length (filter (@det_valid F) rows) in
+  let s := p_sel p in
+  let o := copy_steps p rows in
+  length (o_detector o) = n /\ length (o_track o) = n /\
+  length (o_event o) = (if s_event s then n else 0%nat) /\
+  length (o_parent o) = (if s_parent s then n else 0%nat) /\
+  length (o_nsteps o) = (if s_nsteps s then n else 0%nat) /\
+  length (o_steplen o) = (if s_steplen s then n else 0%nat) /\
+  length (o_particle o) = (if s_particle s then n else 0%nat) /\
+  length (o_edep o) = (if s_edep s then n else 0%nat).
+Proof. exact detector_steps_sizes. Qed.
+Print Assumptions C17_detector_steps_sizes.
+
+Theorem C17_detector_steps_are_delivered : forall (F : Type) (is_zero : F -> bool)
+    (p : params) (pres : list (slot_pre F)) (posts : list (slot_post F)) (rows : list (row F)),
+  has_det p = true ->
+  length pres = length rows -> length posts = length rows -> Forall2 consistent pres posts ->
+  filter (@det_valid F) (collector_step is_zero p pres posts rows)
+  = map snd (delivered p (collector_step is_zero p pres posts rows)).
+Proof. exact detector_steps_are_delivered. Qed.
+Print Assumptions C17_detector_steps_are_delivered.
